@@ -9,6 +9,7 @@ import (
 	"runtime"
 	"strings"
 	"sync"
+	"time"
 
 	"github.com/goreleaser/nfpm/v2"
 	"verif/harness/internal/report"
@@ -331,6 +332,71 @@ func c12ConcurrentCLI(c *Ctx) {
 					c.Rep.Find(report.Finding{Property: "C12", Family: fam.Name, Shape: "concurrent-processes:stray-file",
 						What: fmt.Sprintf("the concurrent run leaves %s in the output directory, the sequential run does not", name), Input: in})
 				}
+			}
+		}
+	}
+}
+
+// c12ManyOfOneFormat builds 4 x NumCPU (at least 48) packages of each format at the same moment, each from its own
+// parsed configuration, and compares every one with the sequential result. A run in which the builds of a format do not
+// come back within two minutes is a finding (the goroutines are left behind).
+func c12ManyOfOneFormat(c *Ctx, fam *report.Family, tree *SrcTree, scripts string) {
+	y := isoPlainConfigYAML(tree, scripts)
+	n := 4 * runtime.NumCPU()
+	if n < 48 {
+		n = 48
+	}
+	prev := runtime.GOMAXPROCS(0)
+	defer runtime.GOMAXPROCS(prev)
+	runtime.GOMAXPROCS(4)
+	for _, f := range Formats {
+		seqCfg, err := isoParse(y)
+		if err != nil {
+			c.Rep.Note("many-of-one-format: %v", err)
+			return
+		}
+		want := isoPackage(seqCfg, f)
+		res := make([]isoResult, n)
+		done := make(chan int, n)
+		start := make(chan struct{})
+		for g := 0; g < n; g++ {
+			go func(g int) {
+				<-start
+				if cfg, err := isoParse(y); err == nil {
+					res[g] = isoPackage(cfg, f)
+				} else {
+					res[g] = isoResult{Err: "parse: " + err.Error()}
+				}
+				done <- g
+			}(g)
+		}
+		close(start)
+		fam.Distribution["goroutine-launches"] += n
+		finished := 0
+		timeout := time.After(2 * time.Minute)
+	wait:
+		for finished < n {
+			select {
+			case <-done:
+				finished++
+			case <-timeout:
+				break wait
+			}
+		}
+		fam.Eval("many-of-one-format|"+f, true)
+		in := map[string]any{"yaml": y, "format": f, "concurrent_packagings": n, "gomaxprocs": 4}
+		if finished < n {
+			c.Rep.Find(report.Finding{Property: "C12", Family: fam.Name, Shape: "concurrent-packagings-never-finish:" + f,
+				What:  fmt.Sprintf("%d %s packagings started at once: %d came back within two minutes, the rest wait for each other (sequentially the package builds in milliseconds)", n, f, finished),
+				Input: in})
+			continue
+		}
+		for g := 0; g < n; g++ {
+			if !res[g].equal(want) {
+				c.Rep.Find(report.Finding{Property: "C12", Family: fam.Name, Shape: "concurrent-result-differs:" + f + ":many-of-one-format",
+					What:  fmt.Sprintf("the %s package built next to %d others of the same format: %s", f, n-1, isoDescribeDiff(res[g], want)),
+					Input: in})
+				break
 			}
 		}
 	}
